@@ -3,7 +3,11 @@ Codec/C18Rec.v / C18Hs.v / ...) + correspondence of every modelled codec with th
 implementation's Marshal/Unmarshal on generated, mutated, random and exhaustive-short inputs;
 implementation-side monitors: no panic, decode(encode v) == v, re-encoding exists and is a
 byte-level fixed point, truncated encodings are rejected, bytes beyond an encoding are not
-consumed, unpacked records partition the datagram."""
+consumed, unpacked records partition the datagram; "edge" values (vectors at and one past what
+their length prefix can express, values whose fields do not fit the decoding context, Conn.Write
+payloads and a ClientCAs pool around the 16-bit limits): the encoder refuses them or emits bytes
+that decode back to the value; an odd supported_signature_algorithms length is never accepted; a
+ServerKeyExchange cut inside its identity hint is never accepted."""
 import vlib
 from vlib import cN, cNlist, chex
 
@@ -16,6 +20,7 @@ PKGS = [
     ("./pkg/protocol/handshake", "^TestVerifC18Handshake$"),
     ("./pkg/protocol/extension", "^TestVerifC18Extension$"),
     ("./internal/negotiation", "^TestVerifC18Canonicalize$"),
+    (".", "^TestVerifC18Conn$"),
 ]
 
 SITE = {
@@ -52,6 +57,8 @@ SITE = {
     "ext_raw_list": "pkg/protocol/extension/raw.go:ParseList",
     "canonicalize_client_hello": "internal/negotiation/negotiation.go:validatedClientHello",
     "canonicalize_server_hello": "internal/negotiation/negotiation.go:validatedServerHello",
+    "conn_write": "conn.go:Conn.Write",
+    "live_certificate_request": "internal/flight/flight12/flight4handler.go:flight4Generate",
 }
 
 # codecs whose encodings are self-delimiting: every proper prefix of a valid encoding must be
@@ -106,6 +113,8 @@ def monitors(cases):
         if c["kind"] in ("valid", "cvalid"):
             valid[(c["id"], tuple(c["ctx"]), c["in"])] = c
     for c in cases:
+        if c["kind"] == "edge":
+            continue                      # judged by edge_monitors
         if c["res"] == "panic":
             flag(c, "panic")
             continue
@@ -137,6 +146,64 @@ def monitors(cases):
         if c["kind"] in ("trail", "ctrail") and c["res"] == "ok" and self_delimiting(c) and par is not None:
             if par["res"] == "ok" and c["dump"] != par["dump"]:
                 flag(c, "bytes-beyond-encoding-consumed")
+        # a vector of two-byte elements with an odd declared length: accepting it means that the
+        # last element was completed with a byte of the following field (F75)
+        if c["res"] == "ok" and odd_sigalg_vector(c):
+            flag(c, "bytes-beyond-declared-vector-consumed")
+        # ServerKeyExchange under a PSK key exchange, cut INSIDE its identity hint: the declared hint
+        # length exceeds what is left, so the input must be rejected (the decoder instead re-reads it
+        # from offset 0 as ServerECDHParams). The message as a whole is not self-delimiting (the
+        # signature is optional), which is why only cuts inside the hint are judged.
+        if (c["codec"] == "server_key_exchange" and c["kind"] in ("trunc", "ctrunc") and c["res"] == "ok"
+                and par is not None and par["res"] == "ok" and c["ctx"] and c["ctx"][0] & 2
+                and len(par["dump"]) >= 2 and par["dump"][0] == 1 and len(c["in"]) // 2 < 2 + par["dump"][1]):
+            flag(c, "truncated-encoding-accepted")
+    return bad
+
+
+def odd_sigalg_vector(c):
+    """DTLS 1.2 CertificateRequest (bare, or inside the handshake envelope): is the declared length
+    of supported_signature_algorithms odd?"""
+    if c["codec"] == "certificate_request":
+        b = bytes.fromhex(c["in"])
+    elif c["codec"] == "handshake2" and c["in"][:2] == "0d":
+        b = bytes.fromhex(c["in"])[12:]
+    else:
+        return False
+    if len(b) < 3 or len(b) < 3 + b[0]:
+        return False
+    return (b[1 + b[0]] << 8 | b[2 + b[0]]) % 2 == 1
+
+
+def edge_label(c, outcome):
+    return "%s/%s=%s" % (".".join(str(x) for x in c["ctx"]) or "-", c["edge"], outcome)
+
+
+def edge_monitors(cases):
+    """kind "edge": Marshal of a fixed value at / beyond the limits of the wire format.
+    Returns {(site, monitor, codec): [(label, case)]} in harness order."""
+    bad = {}
+
+    def flag(c, mon, outcome, marshal_site=True):
+        site = site_of(c)
+        if marshal_site:
+            site = site.replace("Unmarshal", "Marshal")
+        bad.setdefault((site, mon, c["codec"]), []).append((edge_label(c, outcome), c))
+
+    for c in cases:
+        if c["kind"] != "edge":
+            continue
+        if c["res"] == "panic":
+            flag(c, "panic", "panic", marshal_site=c.get("panic", "").startswith(("Marshal", "Conn.Write")))
+        elif c["res"] == "refused":
+            if c.get("in_range"):
+                flag(c, "in-range-value-refused", "refused")
+        elif c["res"] == "err":
+            flag(c, "encoder-output-not-decoded-to-value", "rejected")
+        elif not c.get("dump_same"):
+            flag(c, "encoder-output-not-decoded-to-value", "different-value")
+        elif c.get("reenc") is None or not c.get("reenc_same") or not c.get("fix_bytes"):
+            flag(c, "encoder-output-not-canonical", "not-canonical")
     return bad
 
 
@@ -186,6 +253,7 @@ def replay(chk, path):
     vlib.EVID, vlib.REPLAY = scratch, os.path.join(scratch, "replay")
     spec = {k: case.get(k) for k in ("id", "ctx", "in", "kind")}
     spec["parent"] = case.get("parent", "")
+    spec["edge"] = case.get("edge", "")
     run(chk, extra_env={"VERIF_C18_REPLAY": json.dumps(spec)}, only_codec=case["codec"])
 
 
@@ -236,6 +304,31 @@ def run(chk, extra_env=None, only_codec=None):
                             "harness/overlay/pkgs/**/zz_verif_c18*",
                      "case": c, "more": [x["in"] for x in cs[1:6]],
                      "rerun": "VERIF_SEED=%d bin/check C18 --tier %s" % (chk.seed, chk.tier)})
+
+    # ---- edge values (Marshal at / beyond the limits of the wire format)
+    ebad = edge_monitors(cases)
+    for (site, mon, codec), lcs in sorted(ebad.items()):
+        labels = [l for l, _ in lcs]
+        c = lcs[0][1]
+        found_input = True
+        chk.finding(site, {"monitor": mon, "codec": codec, "edges": labels},
+                    "%s: %s for the edge values %s of codec %s (ctx/name=outcome; e.g. %s)"
+                    % (site, mon, ", ".join(labels), codec, c.get("detail") or c.get("panic") or c.get("err") or
+                       "Marshal returned %s bytes" % c.get("len")),
+                    {"how": "Marshal the named fixed value (harness/overlay/**/zz_verif_c18*: Edges / "
+                            "TestVerifC18Conn) and Unmarshal the result under the context ctx",
+                     "case": c, "all": [dict(x, label=l) for l, x in lcs],
+                     "rerun": "VERIF_SEED=%d bin/check C18 --tier %s" % (chk.seed, chk.tier)})
+    edges = [c for c in cases if c["kind"] == "edge"]
+    per_edge = {}
+    for c in edges:
+        per_edge.setdefault(c["codec"], []).append(c)
+    for codec, cs in sorted(per_edge.items()):
+        chk.leg_info("edge:" + codec, cases=len(cs), refused=sum(1 for c in cs if c["res"] == "refused"),
+                     round_tripped=sum(1 for c in cs if c["res"] == "ok" and c.get("dump_same") and c.get("reenc_same")),
+                     in_range=sum(1 for c in cs if c.get("in_range")))
+    chk.cov["edge_values"] = len(edges)
+    cases = [c for c in cases if c["kind"] != "edge"]
 
     # ---- correspondence with the model, evaluated inside Coq
     ok_model, mout = vlib.coq_make(["theories/Codec/C18Run.vo"])
